@@ -220,3 +220,21 @@ pub fn size_classes(thorough: bool) -> Vec<usize> {
         vec![5, 8, 9, 16, 17, 32, 33, 64, 65, 129, 257]
     }
 }
+
+/// The larger pairwise corpus of the thorough tier (also recorded from V8: fixtures/es_truth_thorough.json).
+pub fn pair_corpus_thorough() -> Vec<Value> {
+    let mut v = pair_corpus();
+    for s in s_uni(2) {
+        v.push(Value::String(s));
+    }
+    v.extend(many(&[
+        "1e-7", "123e-20", "0.000001", "-1e21", "2147483648", "4294967295", "-2147483648", "0.1e1", "100", "1e2", "12", "-12", "255", "16", "17", "8", "3", "0.5e0",
+        "[1,2,3]", r#"["a","b"]"#, "[[],[]]", "[null,null]", "[0,0]", r#"[{"a":1}]"#, "[true,false]", r#"{"a":{}}"#, "[[[]]]", "[[null]]", r#"["",""]"#, r#"[" "]"#, "[1e21,1]",
+        r#""1e21""#, r#""1E+21""#, r#""1e+21""#, r#""0.1e1""#, r#""1e-7""#, r#""0.0000001""#, r#""2147483648""#, r#""-0""#, r#""+0""#, r#""0.0""#, r#""-0.0""#, r#""00""#, r#""0e0""#,
+        r#"" 1""#, r#""1 ""#, r#""﻿1""#, r#""1﻿""#, r#""\u00851""#, r#""᠎1""#, r#""　1""#, r#""\u000b1\f""#, r#""​1""#,
+        r#""0x""#, r#""0X10""#, r#""0xff""#, r#""0xFF""#, r#""0b""#, r#""0b101""#, r#""0o""#, r#""0o777""#, r#""0x1g""#, r#""0x 1""#, r#"" 0x10 ""#, r#""0x-1""#, r#""1e""#,
+        r#""Infinity ""#, r#""Infin""#, r#""InfinityInfinity""#, r#""- 1""#, r#""1 e3""#, r#""1e 3""#, r#""1.e""#, r#""..1""#, r#""1..""#, r#"".1.""#, r#""5.""#, r#"".5e1""#, r#""5.e1""#,
+        r#""12""#, r#""-12""#, r#""100""#, r#""1,2,3""#, r#""a,b""#, r#"",""#, r#""false""#, r#""undefined""#, r#""[]""#, r#""{}""#, r#""[object Object],1""#, r#""Z""#, r#""a ""#, r#"" a""#,
+    ]));
+    dedup(v)
+}
